@@ -7,8 +7,8 @@ Check (compile_match_first_match : forall E fuel scrut arms g0 t v k s',
 Check (compile_rows_first_match : forall E fuel rows s k s' Gam rho,
   compile_rows E fuel rows s = (k, s') -> diag s' = false -> no_panic k ->
   WF E Gam rows s rho -> outcome_equiv (eval_core k rho) (first_match_rows rows rho)).
-Check (literal_match_without_default_rejected : forall E fuel scrut l1 l2 w g0,
-  diag (snd (compile_match E (S (S fuel)) scrut [PLit (LInt l1) (TyInt w); PLit (LInt l2) (TyInt w)] g0)) = true).
+Check (literal_match_without_default_rejected : forall E n w g0,
+  diag (snd (compile_match E (S (S n)) (U 0) [PLit (LInt 0) (TyInt w); PLit (LInt 1) (TyInt w)] g0)) = true).
 Print Assumptions compile_match_first_match.
 Print Assumptions compile_rows_first_match.
 Print Assumptions literal_match_without_default_rejected.
